@@ -9,8 +9,9 @@ from ..core import Batch, cZ, clist, cpair
 ID = "C17"
 LEVEL = "proof"
 PROP_FILE = "Properties/C17.v"
-PROOF_FILES = ["Proofs/EulerProofs.v", "Proofs/RmqProofs.v", "Model/Euler.v", "Model/Rmq.v"]
+PROOF_FILES = ["Gen/RmqGen.v", "Proofs/RmqGenProofs.v", "Proofs/EulerProofs.v", "Proofs/RmqProofs.v", "Model/Euler.v", "Model/Rmq.v"]
 TRUSTED = [
+    "translator translator/pyfun.py + the type table in translator/rmq_gen.py: utils/range_min_query.py is translated statement by statement into Gen/*.v on every run and proved equal to the hand-written model",
     "model Model/Rmq.v of utils/range_min_query.py (sparse table built row by row, query by two overlapping blocks)",
     "model Model/Euler.v of _euler_tour / LowestCommonAncestor in utils/trees.py (nodes identified by root paths)",
 ]
@@ -459,6 +460,13 @@ def _random_queries(rng, shape, count):
     return qs
 
 
+def pre_build(ctx):
+    from translator import rmq_gen
+    from .. import core
+    changed = rmq_gen.regenerate(core.REPO)
+    ctx.notes.append("Gen file of utils/range_min_query.py " + ("regenerated (content changed)" if changed else "regenerated: unchanged"))
+
+
 def batches(ctx):
     rng = ctx.rng
     quick = ctx.quick()
@@ -565,7 +573,7 @@ def batches(ctx):
     )
 
 
-TECHNIQUE = ("Coq proof (induction on the sparse-table depth; nested induction on rose trees for the Euler tour) of model = specification "
+TECHNIQUE = ("translator tie: the source module is regenerated into Gallina on every run and proved equal to the model; Coq proof (induction on the sparse-table depth; nested induction on rose trees for the Euler tour) of model = specification "
              "on root paths; model tied to the code by exhaustive small-domain + random correspondence evaluated with vm_compute")
 LEVEL_TEXT = ("Machine-checked theorems for trees of any arity and size and arrays of any length: the range-minimum query returns an element of "
               "exactly data[i..j) that is <= all of them (None for an empty range); the LCA query on any non-empty list of nodes returns the longest "
@@ -573,5 +581,5 @@ LEVEL_TEXT = ("Machine-checked theorems for trees of any arity and size and arra
               "prefix / strict prefix / either prefix / length / |p|+|q|-2|lcp|; Python's tuple comparison never reaches the nodes. "
               "The Gallina models are compared with utils/range_min_query.py and utils/trees.py on every tree shape up to 6 (quick) / 7 (thorough) nodes "
               "with all pairs and triples, random trees to 40 nodes, every array over {0,1,2} up to length 7/9 with every range, and malformed inputs.")
-LEVEL_NOTE = ("Trusted: Coq kernel; the two hand-written models (correspondence is differential testing on the explored domain, not proof); "
+LEVEL_NOTE = ("Trusted: Coq kernel; the translator pyfun.py (fail-closed, declared type table); the two hand-written models (correspondence is differential testing on the explored domain, not proof); "
               "ete3 nodes compare by identity; negative indices are outside the model (nat). All theorems closed under the global context (no axioms).")
